@@ -229,6 +229,7 @@ class AbiAnalysis:
         self.seen = set()
         self.args_read = set()
         self.same_ok = set()             # (dst arg, src arg) pairs that the C routine's overlap assertions allow to be identical
+        self.dir_ok = {}                 # (dst arg, src arg) -> "above" / "below": the directional overlap the C routine also allows
         self.stored_through = set()      # pointer arguments some store address derives from
         self.ptr_args = set()            # indices of pointer parameters
         self.const_args = set()          # ... of those declared pointer-to-const
@@ -384,17 +385,31 @@ class AbiAnalysis:
             m0 = mems[0]
             shape = (m0.get("base", {}).get("top"), m0.get("index", {}).get("top"), m0.get("scale"), m0.get("disp"))
             roots = pv.get(shape[0], frozenset()) if shape[0] else frozenset()
+            # bytes moved: the widest data register of the instruction (movdqu: 16), a limb otherwise
+            aregs = {shape[0], shape[1]}
+            wid = max([x["bits"] // 8 for x in ins["uses"] + ins["defs"] if x.get("bits") and x["top"] not in aregs and x["top"] != "eflags"] or [8])
             if "load" in ins["f"] and not op.startswith("LEA") and len(roots) == 1 and shape[1]:
                 (rj,) = roots
-                for (ri, b_, i_, sc_, d_, sa_) in st.get("ps", ()):
-                    if ri != rj and i_ == shape[1] and sc_ == shape[2] and d_ == shape[3] and (ri, rj) in self.same_ok:
+                for (ri, b_, i_, sc_, d_, sa_, w_) in st.get("ps", ()):
+                    if ri == rj or i_ != shape[1] or sc_ != shape[2] or (ri, rj) not in self.same_ok:
+                        continue
+                    dl, ds = shape[3] or 0, d_ or 0
+                    how = None
+                    if dl < ds + w_ and ds < dl + wid:
+                        how = "the same block"                                  # byte ranges meet at the same position
+                    elif self.dir_ok.get((ri, rj)) == "above" and dl + wid > ds:
+                        how = "a block that overlaps the source from above (destination at a higher address, the decrementing-copy case)"
+                    elif self.dir_ok.get((ri, rj)) == "below" and dl < ds + w_:
+                        how = "a block that overlaps the source from below (destination at a lower address, the incrementing-copy case)"
+                    if how:
                         self.rep(a, "store-before-load:%s,%s" % (ARG_REGS[ri], ARG_REGS[rj]),
-                                 "the limb at this index of argument %d (%s) is loaded after the limb at the same index of argument %d (%s) was stored "
-                                 "at +0x%x; the C routine allows these two operands to be the same block, and then the store has already "
-                                 "replaced the source limb" % (rj + 1, ARG_REGS[rj], ri + 1, ARG_REGS[ri], sa_ - self.addr))
+                                 "the limb(s) at displacement %d of argument %d (%s) are loaded after displacement %d of argument %d (%s) was stored "
+                                 "at +0x%x with the same index register; the C routine allows the destination to be %s, and then the store has "
+                                 "already replaced source limbs that this load reads" % (dl, rj + 1, ARG_REGS[rj], ds, ri + 1, ARG_REGS[ri],
+                                                                                         sa_ - self.addr, how))
             if "store" in ins["f"] and len(roots) == 1 and shape[1] and not ("load" in ins["f"]):
                 (ri,) = roots
-                st["ps"] = st.get("ps", frozenset()) | {(ri, shape[0], shape[1], shape[2], shape[3], a)}
+                st["ps"] = st.get("ps", frozenset()) | {(ri, shape[0], shape[1], shape[2], shape[3], a, wid)}
         if defs and st.get("ps"):
             dd = {x["top"] for x in defs}
             st["ps"] = frozenset(t_ for t_ in st["ps"] if t_[1] not in dd and t_[2] not in dd)
@@ -714,7 +729,7 @@ def c_twin_overlap_contracts():
     ex = sa.export(cfg)
     out = {}
     for path, fn in ex.functions():
-        c = r_ovcontract.contracts_of(fn)
+        c = r_ovcontract.contracts_of(fn, copy_macros=fn["name"] in ("__gmpn_copyi", "__gmpn_copyd"))
         if c:
             out.setdefault(fn["name"], c)
     return out
@@ -792,6 +807,8 @@ def run(prop="C14", tier="quick", files=None, floor=None):
                 for (ci, cj), (kinds, _t) in twins.get(pn, {}).items():
                     if "same" in kinds:
                         an.same_ok.add((ci, cj))
+                        if "above" in kinds or "below" in kinds:
+                            an.dir_ok[(ci, cj)] = "above" if "above" in kinds else "below"
                 for i, q in enumerate(p["params"][:6]):
                     ct = q.get("ct", "") if isinstance(q, dict) else ""
                     if "*" in ct:
